@@ -481,8 +481,19 @@ class Ctx:
             n = e[1]
             if n.split("::")[-1] == "len" and e[2]:
                 w = self.const_width(e[2][0])
+                if w is None and self.__dict__.get("_at") is not None:
+                    w = self.vec_len(e[2][0], self._at)
                 if w is not None:
                     return (w, w)
+            if n.split("::")[-1] == "unwrap_or" and len(e[2]) == 2 and e[2][0][0] == "call" and e[2][0][1].split("::")[-1] == "map" and len(e[2][0][2]) == 2:
+                clo = e[2][0][2][1]
+                dflt = self.interval(e[2][1])
+                if clo[0] == "agg" and str(clo[1]).startswith("closure ") and dflt is not None and self.u is not None:
+                    names = [k for k in self.u.bodies if mir.norm(k) == str(clo[1])[len("closure "):]]
+                    if len(names) == 1:
+                        ri = ret_interval(self.u, names[0])
+                        if ri is not None:
+                            return (min(ri[0], dflt[0]), max(ri[1], dflt[1]))
             if n.split("::")[-1] in ("len", "count"):
                 return (0, LEN_MAX)
             if n == "std::convert::num::from" and e[2]:
@@ -655,7 +666,11 @@ class Ctx:
         interpreter, HIR) has a constant width"""
         while x[0] == "ref":
             x = x[1]
-        if not (x[0] == "call" and len(x) > 3 and self.u is not None and x[3] in self.u.bodies and not x[2]):
+        while x[0] == "call" and x[1].split("::")[-1] in ("deref", "as_slice", "as_ref") and x[2]:
+            x = x[2][0]
+            while x[0] == "ref":
+                x = x[1]
+        if not (x[0] == "call" and len(x) > 3 and self.u is not None and x[3] in self.u.bodies):
             return None
         key = x[3]
         if key in _WIDTH:
@@ -666,13 +681,78 @@ class Ctx:
             hn = mir.norm(key)
             cands = [k for k in self.u.hir if k == hn or mir.norm(k) == hn]
             if len(cands) == 1:
-                w = LY.width(LY.Interp(self.u).production(cands[0], []))
+                cb = self.u.bodies[key]
+                params = [("param", mir.debug_name(cb, i) or ("p%d" % i)) for i in range(1, cb["argc"] + 1)]
+                w = LY.width(LY.Interp(self.u).production(cands[0], params))
                 if w.is_const():
                     _WIDTH[key] = int(w.const)
                     USED_LEMMAS["L-WIDTH"] = USED_LEMMAS.get("L-WIDTH", 0) + 1
         except Exception:
             _WIDTH[key] = None
         return _WIDTH[key]
+
+    def vec_len(self, x, at, depth=0):
+        """L-VECLEN: exact length at block `at` of a Vec created empty in this body and filled only by straight-line
+        push / extend_from_slice calls (constant-size operands) that all dominate `at`; None otherwise"""
+        import re
+        if depth > 6:
+            return None
+        while x[0] == "ref" or (x[0] == "call" and x[1].split("::")[-1] in ("deref", "as_slice") and x[2]) or (x[0] == "cast" and x[1].startswith("PointerCoercion")):
+            x = x[1] if x[0] == "ref" else (x[2][0] if x[0] == "call" else x[4])
+        w = self.const_width(x)
+        if w is not None:
+            return w
+        ty = self.ty_of(x) or ""
+        m = re.match(r"^&?\[u8; (\d+)\]$", ty.strip())
+        if m:
+            return int(m.group(1))
+        if x[0] == "call" and x[1].split("::")[-1] in ("to_be_bytes", "to_le_bytes", "to_ne_bytes"):
+            r = self.rng(self.ty_of(x[2][0])) if x[2] else None
+            if r:
+                return (r[1] - r[0] + 1).bit_length() // 8
+        if x[0] == "agg" and x[1] == "array":
+            return len(x[3])
+        if x[0] == "const" and isinstance(x[2], str):
+            m = re.match(r"^&?\[u8; (\d+)\]$", x[2].strip())
+            if m:
+                return int(m.group(1))
+        if not (x[0] == "call" and x[1].split("::")[-1] in ("new", "with_capacity") and "Vec" in x[1] and len(x) > 4):
+            return None
+        total = 0
+        loops = self.natural_loops()
+        for bb, t, name, info in mir.calls(self.b):
+            muts = [a for a in t["args"] if a.get("k") in ("copy", "move") and mir._mut_ptr_arg(a["place"]["ty"])]
+            if not muts:
+                continue
+            recv = sym.expr(self.b, t["args"][0])
+            while recv[0] == "ref":
+                recv = recv[1]
+            if recv != x:
+                if any(x == y for a in muts for y in sym.walk(sym.expr(self.b, a))):
+                    return None
+                continue
+            last = mir.norm(name or "").split("::")[-1]
+            if last in ("deref_mut",):
+                continue
+            if bb not in self.dom.get(at, ()) and bb != at:
+                if at in self.reach_avoid(bb, None):
+                    return None           # a mutation that may or may not have happened
+                continue
+            if bb == at:
+                continue                  # the call terminator comes after the statements of `at`
+            if any(bb in bl for (_h, _l, bl) in loops):
+                return None
+            if last == "push" and len(t["args"]) == 2:
+                total += 1
+            elif last == "extend_from_slice" and len(t["args"]) == 2:
+                n = self.vec_len(sym.expr(self.b, t["args"][1]), bb, depth + 1)
+                if n is None:
+                    return None
+                total += n
+            else:
+                return None
+        USED_LEMMAS["L-VECLEN"] = USED_LEMMAS.get("L-VECLEN", 0) + 1
+        return total
 
     def length_accumulation(self, e, l, bb):
         """e = unwrap/`?` of checked_add(l, len(<element of collection P>) as T), in a loop driven by iter(&P)"""
@@ -1623,7 +1703,7 @@ def ret_interval(u, fn, depth=0):
             iv = cx.interval(sym.expr_rv(b, d[3]["rv"]))
         else:
             name, info = mir.callee(d[2])
-            iv = ret_interval(u, name, depth + 1) if name in u.bodies else None
+            iv = ret_interval(u, name, depth + 1) if name in u.bodies else cx.interval(sym.expr_def(b, d))
         if iv is None:
             iv = r
         lo = iv[0] if lo is None else min(lo, iv[0])
